@@ -49,6 +49,12 @@ NEEDS = {
     'C10-agent4': ('C10', 'moist curl_and_div_tendencies refactored to add the virtual-temperature pressure-gradient correction with the (-v, u) rotation applied to it: needs the moist equations, non-zero humidity, non-zero temperature variation AND non-uniform surface pressure; breaks mirror equivariance only (rotation intact)', ['C10']),
     'C11-agent4': ('C11', 'shallow-water orography term hoisted out of clip_wavenumbers: needs a shallow-water model over an orography with energy at the top total wavenumber (grid.to_modal of a nodal mountain); flat or truncated orography unaffected', ['C11']),
     'C15-agent4': ('C15', 'leapfrog_step_filter takes the middle time level from u instead of u_next: identical when the adapter runs first (u_next[0] is u[1]); needs an earlier filter that modifies the middle level (Robert-Asselin before the exponential filter) or a direct call with independent u, u_next', ['C15']),
+    'C01-agent5': ('C01', 'quadrature weights memoised by node count only: equiangular and equiangular_with_poles grids with the same latitude_nodes built in one process share one weight vector; needs both spacings with equal node counts in the same process (Gauss grids and a single flavour unaffected)', ['C01']),
+    'C04-agent5': ('C04', 'moist reference-temperature term of the adiabatic tendency evaluated with u.grad(ln ps) only instead of the full divergence: needs the moist class, non-zero humidity AND non-zero divergence (q = 0, non-divergent flow, dry / time classes unaffected)', ['C04']),
+    'C05-agent5': ('C05', 'get_density_ratios transposed (made to match its own, wrong, docstring): one-layer runs unaffected and library-built multi-layer balanced states stay steady because the constructor uses the same helper; needs >= 2 layers of distinct densities AND an oracle independent of that helper', ['C05']),
+    'C07-agent5': ('C07', 'fast modal_axes keeps counting total wavenumbers into the padding instead of zero-filling it: needs a layout padded along l (y-sharded mesh or base_shape_multiple not dividing L) AND a consumer normalising by the largest wavenumber / eigenvalue (exponential / diffusion filters)', ['C07', 'C01']),
+    'C09-agent5': ('C09', 'same site as C07-agent5 (padded tail of the total-wavenumber axis not zero): Grid operations agree on resolved entries; needs non-default base_shape_multiple (or a mesh) with L not a multiple AND a filter that reads the whole wavenumber axis', ['C09', 'C01']),
+    'C13-agent5': ('C13', 'upward cumulative sigma integral computed by flipping x but not the layer thicknesses: needs downward=False (non-default) AND layer thicknesses that are not mirror-symmetric', ['C13']),
     'C14-agent3': ('C14', 'trajectory_from_step returns the raw carry instead of post_process_fn(carry) as the frame when start_with_input=True: invisible with the default start_with_input=False and whenever post_process_fn is the identity; needs start_with_input=True AND a non-identity post_process_fn', ['C14']),
     'C16-agent3': ('C16', 'periodic longitude cell bounds computed from roll(x, -+1) with the period added only at the array end instead of aligning each neighbour to its point: identical when the longitudes are increasing after `% period`; needs a grid whose longitude_offset is negative or exceeds one cell width (0 / 2 pi seam inside the array)', ['C16']),
     'C17-agent3': ('C17', '_dot_interp (matrix / accelerator path of interp) loses the clip of the searchsorted index: needs that path to be executed (TPU dispatch or a direct call; CPU tests never run it) AND a query exactly equal to the last source node, where all weights become zero and the result is 0 instead of fp[-1]', ['C17']),
